@@ -218,7 +218,20 @@ def _frame_worlds(M, FRAME, HEADER):
                         return ("undecided", f"is_valid outside the interpreted subset (n={n}): {vouts[0][1][1]!r}")
                     cells += 1
                     counts["is_valid"] = counts.get("is_valid", 0) + 1
+                    vouts2 = []
                     for dec, res in vouts:
+                        # a symbolic truth value handed back (`a and b` returns one of its operands): its value under the decisions taken, or either value if it was not asked
+                        if res[0] == "value" and isinstance(res[1], Pred):
+                            pk = repr(("bvpred", res[1].key))
+                            dd0 = dict(dec)
+                            if pk in dd0:
+                                vouts2.append((dec, ("value", dd0[pk] != res[1].negated)))
+                            else:
+                                for tv in (True, False):
+                                    vouts2.append((list(dec) + [(pk, tv)], ("value", tv != res[1].negated)))
+                        else:
+                            vouts2.append((dec, res))
+                    for dec, res in vouts2:
                         dd = dict(dec)
                         Lk = repr(("bvpred", lw.key)) if isinstance(lw, Pred) else None
                         extra = [t for t in dd if t not in (G, Lk)]
